@@ -20,18 +20,26 @@ from common import cps
 
 ID = "C14"
 LEAN_MODEL_TARGETS = ["drv_c14"]
-LEAN_PROOF_TARGETS = ["PyroProps.C14"]
+LEAN_PROOF_TARGETS = ["PyroProps.C14", "PyroProps.C14Src"]
 AUDIT_FILES = ["PyroModel/NameServer.lean", "PyroModel/Sql.lean", "PyroModel/Gen/C14.lean",
                "PyroProofs/NSLists.lean", "PyroProofs/NSRefine.lean", "PyroProofs/NSMem.lean",
-               "PyroProofs/NSSql.lean", "PyroProps/C14.lean"]
+               "PyroProofs/NSSql.lean", "PyroProps/C14.lean",
+               "PyroModel/NsSrc.lean", "PyroModel/Gen/C14Src.lean", "PyroProps/C14Src.lean"]
 THEOREMS = ["Pyro.C14.C14_mem_refines", "Pyro.C14.C14_sql_refines", "Pyro.C14.C14_backends_equal",
             "Pyro.C14.C14_counts", "Pyro.C14.C14_counts_mem", "Pyro.C14.C14_counts_sql", "Pyro.C14.C14_ns_protected",
             "Pyro.C14.C14_atomic", "Pyro.C14.C14_atomic_inv", "Pyro.C14.C14_reopen",
             "Pyro.C14.C14_fresh_empty", "Pyro.C14.C14_overlap_serial",
             "Pyro.C14.C14_literal_names", "Pyro.C14.C14_like_not_literal", "Pyro.C14.C14_meta_all_raw_differs",
             "Pyro.C14.C14_gen_sql", "Pyro.C14.C14_gen_cover", "Pyro.C14.C14_gen_texts", "Pyro.C14.C14_gen_schema",
-            "Pyro.C14.C14_gen_nsname"]
-SUITES = ["mem", "default", "sql", "sql-faults", "spec", "like"]
+            "Pyro.C14.C14_gen_nsname",
+            # the transcription of NameServer's methods (harness/props/c14_tr.py -> Gen/C14Src.lean) = the model
+            "Pyro.C14.C14_count_translated", "Pyro.C14.C14_lookup_translated", "Pyro.C14.C14_register_translated",
+            "Pyro.C14.C14_setMeta_translated", "Pyro.C14.C14_list_translated", "Pyro.C14.C14_yplookup_translated",
+            "Pyro.C14.C14_remove_translated", "Pyro.C14.C14_ns_translated",
+            "Pyro.C14.C14_source_step_refines", "Pyro.C14.C14_source_mem_refines", "Pyro.C14.C14_source_sql_refines",
+            "Pyro.C14.C14_source_backends_equal", "Pyro.C14.C14_source_atomic", "Pyro.C14.C14_source_counts",
+            "Pyro.C14.C14_source_ns_protected", "Pyro.C14.C14_faulty_history", "Pyro.C14.C14_source_faulty_history"]
+SUITES = ["mem", "default", "sql", "sql-faults", "spec", "like", "mem-src", "sql-src"]
 RULE = ("histories of 4..30 operations (register safe/unsafe with tag lists incl. duplicates, set_metadata, lookup, "
         "remove by name/prefix/regex and combinations, list, yplookup all/any, count, reopen) over a per-history universe of "
         "confusable names (case pairs, '_' and '%' variants, regex metacharacters, non-ASCII, the empty string, the name "
@@ -203,7 +211,7 @@ def extract():
         return "[" + ", ".join(_lean_str(x) for x in xs) + "]"
 
     probe_rows = (",%s" % chr(10)).join(rows)
-    return f"""-- GENERATED by harness/props/c14.py by running {os.path.relpath(nameserver.__file__, common.REPO)} — do not edit
+    text = f"""-- GENERATED by harness/props/c14.py by running {os.path.relpath(nameserver.__file__, common.REPO)} — do not edit
 namespace Pyro.Gen.C14
 /-- code points of core.NAMESERVER_NAME -/
 def nsName : List Nat := {[ord(c) for c in core.NAMESERVER_NAME]}
@@ -222,6 +230,18 @@ def reopenKeepsRows : Bool := {str(reopen_same).lower()}
 def sqlTexts : List String := {lst(texts)}
 end Pyro.Gen.C14
 """
+    # the NameServer methods themselves, transcribed statement by statement (shallow embedding over the model's
+    # storage interface); PyroProps/C14Src.lean proves the transcription equal to the hand-written model
+    from props import c14_tr
+    gen = os.path.join(common.LEAN, "PyroModel", "Gen")
+    try:
+        src = c14_tr.translate(nameserver)
+    except c14_tr.Untranslatable:
+        # keep the probed facts current, leave the last transcription in place, report the tie as broken
+        common.write_if_changed(os.path.join(gen, "C14.lean"), text)
+        raise
+    common.write_if_changed(os.path.join(gen, "C14Src.lean"), src)
+    return text
 
 
 # ----------------------------------------------------------------------------------------------------
@@ -1057,9 +1077,14 @@ def _run(ctx, name, n, do_model, directed=False):
                     meta.append(("mem", ops, res["mem_out"], res["mem_alive"]))
                     lines.append("hist spec %s %s %s" % (bad, tab, " ".join(res["mem_tokens"])))
                     meta.append(("spec", ops, res["mem_out"], res["mem_alive"]))
+                    # the transcription of NameServer's methods (Gen/C14Src.lean) evaluated next to the model
+                    lines.append("hist memsrc %s %s %s" % (bad, tab, " ".join(res["mem_tokens"])))
+                    meta.append(("mem-src", ops, res["mem_out"], res["mem_alive"]))
                 if res["sql_tokens"]:
                     lines.append("hist sql %s %s %s" % (bad, tab, " ".join(res["sql_tokens"])))
                     meta.append(("sql", ops, res["sql_out"], res["sql_alive"]))
+                    lines.append("hist sqlsrc %s %s %s" % (bad, tab, " ".join(res["sql_tokens"])))
+                    meta.append(("sql-src", ops, res["sql_out"], res["sql_alive"]))
         if do_model and lines:
             outs = common.run_driver("drv_c14", lines)
             ctx.corr_cases += len(lines)
